@@ -28,7 +28,7 @@ ASSUMPTIONS = [
     "observable result = all reported metrics per group, whether computation_time is set, and the kinds of lines printed (for log_times / verbose)",
     "options for which no probe in the pool is sensitive are reported as inconclusive sub-results (counter C19.option_without_sensitive_probe), never as held",
 ]
-MINIMUM = {"C19.roundtrips_judged": 200, "C19.sensitive_probes_judged": 300, "C19.components_judged": 40, "C19.shipped_judged": 5}
+MINIMUM = {"C19.byname_judged": 1, "C19.roundtrips_judged": 200, "C19.sensitive_probes_judged": 300, "C19.components_judged": 40, "C19.shipped_judged": 5}
 BUDGET_S = {"quick": 240, "thorough": 1800}
 
 BASE = {
@@ -183,7 +183,7 @@ def cases(tier, seed):
         for v1 in range(min(2, len(FIELDS[f1]))):
             for v2 in range(min(2, len(FIELDS[f2]))):
                 yield {"fam": "pair", "f1": f1, "v1": v1, "f2": f2, "v2": v2}
-    for i in range(150 if tier == "quick" else 6000):
+    for i in range(300 if tier == "quick" else 8000):
         yield {"fam": "random", "i": i}
     for i in range(12):
         yield {"fam": "components", "i": i}
@@ -191,6 +191,7 @@ def cases(tier, seed):
         yield {"fam": "setters", "i": i}
     for i in range(5):
         yield {"fam": "shipped", "i": i}
+    yield {"fam": "byname", "i": 0}
 
 
 def setup(ctx):
@@ -401,6 +402,69 @@ def setters(ctx, i, tmpdir):
         ctx.count("C19.option_without_sensitive_probe")
 
 
+BYNAME_SCRIPT = r"""
+import json, os, sys
+import panoptica
+from panoptica import Panoptica_Evaluator, InputType, NaiveThresholdMatching, ConnectedComponentsInstanceApproximator
+from panoptica.utils.segmentation_class import SegmentationClassGroups, LabelGroup
+out = {"pkg": os.path.dirname(panoptica.__file__), "problems": []}
+def ev(thr):
+    return Panoptica_Evaluator(expected_input=InputType.UNMATCHED_INSTANCE, instance_matcher=NaiveThresholdMatching(matching_threshold=thr))
+names = {"verif_study.v1": 0.25, "verif_study.v2": 0.75, "verif_plain": 0.5, "verif_study.v1.final": 0.125}
+for n, t in names.items():
+    ev(t).save_to_config_by_name(n)
+for n, t in names.items():
+    try:
+        e = Panoptica_Evaluator.load_from_config_name(n)
+        got = e._Panoptica_Evaluator__instance_matcher._matching_threshold
+        if got != t:
+            out["problems"].append({"name": n, "saved_threshold": t, "loaded_threshold": got})
+    except Exception as ex:
+        out["problems"].append({"name": n, "exc": repr(ex)[:300]})
+g = SegmentationClassGroups({"a": LabelGroup([1, 2]), "b": LabelGroup([3], True)})
+g.save_to_config_by_name("verif_groups.x")
+try:
+    g2 = SegmentationClassGroups.load_from_config_name("verif_groups.x")
+    if sorted(g2.keys()) != ["a", "b"] or g2["b"].single_instance is not True:
+        out["problems"].append({"name": "verif_groups.x", "loaded": str(g2)})
+except Exception as ex:
+    out["problems"].append({"name": "verif_groups.x", "exc": repr(ex)[:300]})
+json.dump(out, open(sys.argv[1], "w"))
+"""
+
+
+def byname(ctx, tmpdir):
+    """save_to_config_by_name / load_from_config_name with dotted names.  These write into the package
+    directory, so they run on a scratch copy of the package under check, in a subprocess."""
+    import json
+    import shutil
+    import subprocess
+
+    from vf import harness
+
+    pkg = os.path.join(tmpdir, "pkgcopy")
+    shutil.copytree(os.path.join(pan.REPO, "panoptica"), os.path.join(pkg, "panoptica"), ignore=shutil.ignore_patterns("__pycache__"))
+    script = os.path.join(tmpdir, "byname.py")
+    with open(script, "w") as fh:
+        fh.write(BYNAME_SCRIPT)
+    outp = os.path.join(tmpdir, "byname.json")
+    env = dict(os.environ, PYTHONPATH=pkg, VERIF_REPO=pkg, PANOPTICA_CITATION_REMINDER="false")
+    p = subprocess.run([harness.PY, "-B", script, outp], env=env, capture_output=True, text=True, timeout=300, cwd=tmpdir)
+    ctx.count("evaluations")
+    if not os.path.exists(outp):
+        ctx.errors.append({"case": "byname", "tb": "by-name script failed: " + p.stderr[-1500:]})
+        return
+    res = json.load(open(outp))
+    if not os.path.realpath(res["pkg"]).startswith(os.path.realpath(pkg)):
+        ctx.errors.append({"case": "byname", "tb": "by-name script imported panoptica from " + res["pkg"]})
+        return
+    ctx.count("C19.byname_judged")
+    ctx.nontrivial("byname")
+    for pr in res["problems"]:
+        ctx.viol("config_saved_by_name_loads_differently", pr, features={"by_name": True})
+        break
+
+
 SHIPPED = [
     ("panoptica_evaluator_BRATS", "evaluator"), ("panoptica_evaluator_ISLES", "evaluator"), ("panoptica_evaluator_VERSE", "evaluator"),
     ("panoptica_evaluator_unmatched_instance", "evaluator"), ("SegmentationClassGroups_example_unmatchedinstancepair", "groups"),
@@ -467,3 +531,5 @@ def run(case, ctx):
         components(ctx, case["i"] % 4 if case["i"] < 4 else 3, tmpdir)
     elif fam == "shipped":
         shipped(ctx, case["i"], tmpdir)
+    elif fam == "byname":
+        byname(ctx, tmpdir)
